@@ -36,12 +36,12 @@ fn kind_of_lex(v: &lx::Narsese) -> u8 {
 }
 
 fn parsed_kinds(fi: usize, text: &str) -> Result<(u8, u8, Narsese, lx::Narsese), Failure> {
-    let e = match guard(|| fmts::e(fi).parse::<Narsese>(text)) {
+    let e = match crate::pipes::enum_parse_raw(fi, text) {
         Ok(Ok(v)) => v,
         Ok(Err(e)) => return Err(Failure::new("classify:enum-parse-err", format!("text {text:?}\n{e}"))),
         Err(p) => return Err(Failure::new("classify:panic", format!("text {text:?}\n{p}"))),
     };
-    let l = match guard(|| fmts::l(fi).parse(text)) {
+    let l = match crate::pipes::lexical_parse_raw(fi, text) {
         Ok(Ok(v)) => v,
         Ok(Err(e)) => return Err(Failure::new("classify:lexical-parse-err", format!("text {text:?}\n{e}"))),
         Err(p) => return Err(Failure::new("classify:panic", format!("text {text:?}\n{p}"))),
